@@ -4,8 +4,10 @@
 verification log (coordinator_m<k>.log) confirms: demo passes without, fails with, suite passes with."""
 import json, os, re, shutil, sys
 ROOT = os.path.dirname(os.path.dirname(os.path.abspath(__file__)))
-for prop in sys.argv[1:]:
-    out = f"/root/mut/out-{prop}"
+for arg in sys.argv[1:]:
+    # round 2 deliveries are named <Cxx>b and become <Cxx>-m3 / <Cxx>-m4
+    prop, second = (arg[:-1], True) if arg.endswith("b") else (arg, False)
+    out = f"/root/mut/out-{arg}"
     notes = open(os.path.join(out, "NOTES.md")).read() if os.path.exists(os.path.join(out, "NOTES.md")) else ""
     for m in ("m1", "m2"):
         log = os.path.join(out, f"coordinator_{m}.log")
@@ -18,7 +20,7 @@ for prop in sys.argv[1:]:
         fails_with = "exit=101" in sec.get("demo WITH mutation", "") or "FAILED" in sec.get("demo WITH mutation", "")
         suite = sec.get("suite WITH mutation", "")
         suite_ok = "test result: FAILED" not in suite and suite.count("test result: ok") >= 10
-        d = os.path.join(ROOT, "seeded", f"{prop}-{m}")
+        d = os.path.join(ROOT, "seeded", f"{prop}-{ {'m1': 'm3', 'm2': 'm4'}[m] if second else m}")
         if not (ok_without and fails_with and suite_ok):
             print(prop, m, "NOT confirmed", ok_without, fails_with, suite_ok); continue
         os.makedirs(d, exist_ok=True)
@@ -28,7 +30,7 @@ for prop in sys.argv[1:]:
         needs = sect.group(1).strip()[:3000] if sect else notes[:3000]
         meta = dict(
             breaks_property=prop, patch="patch.diff", demonstration="demo.rs",
-            base_commit="faf2fd7 (the clone the change was written against)",
+            base_commit=("2a6ead6" if second else "faf2fd7") + " (the clone the change was written against)",
             written_by="independent sub-agent given only the property text and a scratch clone of /repo (nothing from /verif)",
             needs_to_manifest=needs,
             coordinator_ran=[
